@@ -10,23 +10,23 @@ EXTENDS OrderLaws_Univ, TLC, SequencesExt
 CONSTANT Tier               \* "quick" | "thorough"
 Universes == LawUniversesOf(Tier)
 
-AllValid == \A U \in Universes : \A t \in U : ValidThing(t)
+AllValid(U) == \A t \in U : ValidThing(t)
 
-RefSatisfies == \A U \in Universes :
+RefSatisfies(U) ==
     LET S == SetToSeq(U)
         n == Len(S)
         K == [i \in 1..n |-> RefKey(S[i])]
         O == [i \in 1..n |-> [j \in 1..n |-> RefObsK("key", S[i], S[j], K[i], K[j])]]
     IN  /\ \A i, j \in 1..n : PairBad(O[i][j]) = {} /\ MirrorBad(O[i][j], O[j][i]) = {}
         /\ \A i \in 1..n : SelfBad(O[i][i]) = {}
-        /\ \A i, j, k \in 1..n : TripleBad(O[i][j], O[j][k], O[i][k]) = {}
+        /\ TriplesOK(O, n)
 
 \* non-vacuity: the universes contain equal-but-differently-spelled objects, and
 \* objects that differ only in one attribute of the key
-SpellingHashBreaks == Cardinality({U \in Universes :
+SpellingHashBreaks(U) ==
     LET K == [t \in U |-> RefKey(t)]
-    IN  \E x, y \in U : x # y /\ K[x] = K[y] /\ "Eq_hash" \in PairBad(RefObsK("spelling", x, y, K[x], K[y]))}) >= 2
-CoarseOrderBreaks == \E U \in Universes : \E x, y \in U :
+    IN  \E x, y \in U : x # y /\ K[x] = K[y] /\ "Eq_hash" \in PairBad(RefObsK("spelling", x, y, K[x], K[y]))
+CoarseOrderBreaks(U) == \E x, y \in U :
     x.sub # y.sub /\ "Neq_ordered" \in PairBad([RefObs("key", x, y) EXCEPT !.lt = FALSE, !.gt = FALSE])
 
 \* each clause fires on a hand-made observation that breaks exactly it
@@ -56,8 +56,23 @@ ClauseUnitTests ==
         /\ FindBad(M2, 2, <<<<TRUE, TRUE>>, <<FALSE, TRUE>>>>) = {"Dict_finds"}
 
 ASSUME ClauseUnitTests
-ASSUME AllValid
-ASSUME RefSatisfies
-ASSUME SpellingHashBreaks
-ASSUME CoarseOrderBreaks
+\* TriplesOK means "no triple breaks a clause": compared with the quantified form on a small
+\* universe, for the reference relations and for relations doctored in one entry
+TriplesOKLaw(U) ==
+    LET S == SetToSeq(U)
+        n == Len(S)
+        K == [i \in 1..n |-> RefKey(S[i])]
+        O == [i \in 1..n |-> [j \in 1..n |-> RefObsK("key", S[i], S[j], K[i], K[j])]]
+        Slow(M) == \A i, j, k \in 1..n : TripleBad(M[i][j], M[j][k], M[i][k]) = {}
+        Flip(p, q, f) == [O EXCEPT ![p][q][f] = ~@]
+    IN  /\ TriplesOK(O, n) = Slow(O)
+        /\ \A p, q \in 1..n : \A f \in {"lt", "eq", "bad"} : TriplesOK(Flip(p, q, f), n) = Slow(Flip(p, q, f))
+
+\* (the laws take the universe as a parameter: TLC evaluates zero-arity definitions
+\*  eagerly at start-up, which would evaluate each law twice)
+ASSUME \A U \in Universes : AllValid(U)
+ASSUME \A U \in Universes : RefSatisfies(U)
+ASSUME TriplesOKLaw(GroupBlock) /\ TriplesOKLaw(GroupCpv)
+ASSUME Cardinality({U \in Universes : SpellingHashBreaks(U)}) >= 2
+ASSUME \E U \in Universes : CoarseOrderBreaks(U)
 =============================================================================
